@@ -2,7 +2,7 @@
 use crate::rt::{run_shards, Acc, CheckMeta, Ctx};
 
 pub fn run(ctx: &Ctx) -> (CheckMeta, Acc) {
-    let n = ctx.tier.pick(6, 100);
+    let n = ctx.tier.pick(60, 3000);
     let steps = ctx.tier.pick(150, 300);
     let total = run_shards(ctx, 16, |sh, acc| crate::mon::sys::run_sys_histories(ctx, sh, acc, n, steps, "C10"));
     let meta = CheckMeta {
